@@ -98,6 +98,9 @@ def run_one(emb, seq, labels, p, order):
     before = [S.ev_tuple(e) for e in arg]
     try:
         out = flood(arg, pulsetime=p * emb.unit_us / 1_000_000)
+        again = flood(arg, pulsetime=p * emb.unit_us / 1_000_000)
+        if [S.ev_tuple(e) for e in out] != [S.ev_tuple(e) for e in again]:
+            return [("flood-second-call-differs", "same list, different result the second time")], None
     except Exception as e:
         return [("flood-raised", f"{type(e).__name__}: {e}")], None
     after = [S.ev_tuple(e) for e in arg]
